@@ -93,8 +93,28 @@ async def _member(case, spec, tag, obs, c, loop, net, ctl):
     obs.members[tag] = m
     if spec.get("start_at"):
         await asyncio.sleep(spec["start_at"])
+    extra = {}
+    df = spec.get("deser_fail")
+    if df:
+        # this member's value deserializer raises the first time it sees certain records (see _consumer_sim)
+        seen = set()
+
+        def deser(v):
+            if v is None:
+                return v
+            parts = v.split(b"-", 3)
+            try:
+                p, off = int(parts[1]), int(parts[2])
+            except Exception:
+                return v
+            if off % df["mod"] == df["rem"] and (p, off) not in seen:
+                seen.add((p, off))
+                obs.ev(loop, "deser_failed", tag, tp="t?:%d" % p, offset=off)
+                raise CS.InjectedDeserializerError("poison record %d/%d" % (p, off))
+            return v
+        extra["value_deserializer"] = deser
     consumer = AIOKafkaConsumer(
-        bootstrap_servers=c.bootstrap(), group_id=cfg.get("group_id", "g"), client_id=tag,
+        bootstrap_servers=c.bootstrap(), group_id=cfg.get("group_id", "g"), client_id=tag, **extra,
         group_instance_id=spec.get("instance_id"),
         session_timeout_ms=cfg["session_timeout_ms"], heartbeat_interval_ms=cfg["heartbeat_interval_ms"],
         rebalance_timeout_ms=cfg["rebalance_timeout_ms"], retry_backoff_ms=cfg["retry_backoff_ms"],
@@ -166,6 +186,8 @@ async def _member(case, spec, tag, obs, c, loop, net, ctl):
                     deliver(res[tp])
         except ConsumerStoppedError:
             raise
+        except CS.InjectedDeserializerError:
+            await asyncio.sleep(0.001)           # the application logs the poison record and polls again
         except KafkaError as e:
             obs.ev(loop, "api_error", tag, call=kind, error=type(e).__name__, detail=repr(e)[:200], cause=repr(e.__cause__)[:200])
             await asyncio.sleep(0.01)
